@@ -209,6 +209,12 @@ func (r *Report) Finish(verifDir string, seed int) int {
 	for _, id := range r.order {
 		rules = append(rules, r.Rules[id])
 	}
+	if os.Getenv("VERIF_ALLOBS") != "" {
+		for _, o := range r.Obligs {
+			b, _ := json.Marshal(o.Detail)
+			fmt.Printf("OBLIG %s %s | %s | %s | %s\n", o.Rule, o.Status, o.Key, o.Pos, b)
+		}
+	}
 	var samples []Oblig
 	perRule := map[string]int{}
 	for _, o := range r.Obligs {
